@@ -141,6 +141,29 @@ pub struct Compactor {
     clock: Arc<BoundedClock>,
 }
 
+/// Bookkeeping of one leased compaction group. Dropping it — at the regular
+/// end of the group or on an early `?` return — stops the lease renewal task
+/// and releases the concurrency slot, so a failed compaction neither keeps its
+/// lease alive for ever nor uses up compaction capacity.
+struct GroupGuard<'a> {
+    renewal: tokio::task::JoinHandle<()>,
+    active_compactions: &'a AtomicU64,
+}
+
+impl Drop for GroupGuard<'_> {
+    fn drop(&mut self) {
+        self.renewal.abort();
+        let active = self.active_compactions.fetch_sub(1, Ordering::Relaxed) - 1;
+        gauge!(
+            "cardinalsin_compaction_active",
+            "service" => crate::telemetry::service(),
+            "run_id" => crate::telemetry::run_id(),
+            "tenant" => crate::telemetry::tenant()
+        )
+        .set(active as f64);
+    }
+}
+
 impl Compactor {
     /// Create a new compactor
     pub fn new(
@@ -584,7 +607,10 @@ impl Compactor {
             .set(active as f64);
 
             // Spawn lease renewal task for long-running compactions
-            let renewal_handle = self.spawn_lease_renewal(lease.lease_id.clone());
+            let group_guard = GroupGuard {
+                renewal: self.spawn_lease_renewal(lease.lease_id.clone()),
+                active_compactions: &self.active_compactions,
+            };
 
             info!(
                 file_count = group.len(),
@@ -647,16 +673,8 @@ impl Compactor {
                 }
             }
 
-            renewal_handle.abort();
-            // Track compaction completion
-            let active = self.active_compactions.fetch_sub(1, Ordering::Relaxed) - 1;
-            gauge!(
-                "cardinalsin_compaction_active",
-                "service" => crate::telemetry::service(),
-                "run_id" => crate::telemetry::run_id(),
-                "tenant" => crate::telemetry::tenant()
-            )
-            .set(active as f64);
+            // Stop the renewal task and track compaction completion
+            drop(group_guard);
         }
 
         Ok(())
@@ -712,7 +730,10 @@ impl Compactor {
             .set(active as f64);
 
             // Spawn lease renewal task
-            let renewal_handle = self.spawn_lease_renewal(lease.lease_id.clone());
+            let group_guard = GroupGuard {
+                renewal: self.spawn_lease_renewal(lease.lease_id.clone()),
+                active_compactions: &self.active_compactions,
+            };
 
             info!(
                 level = level,
@@ -775,16 +796,8 @@ impl Compactor {
                 }
             }
 
-            renewal_handle.abort();
-            // Track compaction completion
-            let active = self.active_compactions.fetch_sub(1, Ordering::Relaxed) - 1;
-            gauge!(
-                "cardinalsin_compaction_active",
-                "service" => crate::telemetry::service(),
-                "run_id" => crate::telemetry::run_id(),
-                "tenant" => crate::telemetry::tenant()
-            )
-            .set(active as f64);
+            // Stop the renewal task and track compaction completion
+            drop(group_guard);
         }
 
         Ok(())
